@@ -4,7 +4,7 @@ use crate::value::{DynObject, ObjectRepr, Tuple, Value, ValueKind, ValueRepr};
 
 const MIN_I128_AS_POS_U128: u128 = 170141183460469231731687303715884105728;
 const MAX_REPEATED_STRING_LEN: usize = 100_000_000;
-const MAX_REPEATED_TUPLE_LEN: usize = 1_000_000;
+const MAX_REPEATED_SEQ_LEN: usize = 1_000_000;
 
 /// Iterator wrapper that provides exact size hints for iterators with known length.
 pub(crate) struct LenIterWrap<I: Send + Sync>(pub(crate) usize, pub(crate) I);
@@ -463,18 +463,22 @@ fn repeat_iterable(n: &Value, seq: &DynObject) -> Result<Value, Error> {
         )
     }));
 
+    // Tuples are materialized eagerly and everything else reports the total as
+    // its exact length, which consumers like `|list` or `|sort` use as an
+    // allocation size: either way the length is bounded.
+    if total_len > MAX_REPEATED_SEQ_LEN {
+        return Err(Error::new(
+            ErrorKind::InvalidOperation,
+            "repeated sequence is too large",
+        ));
+    }
+
     if let Some(tuple) = seq.downcast_ref::<Tuple>() {
         // nothing to repeat; do not spin through the count
         if total_len == 0 {
             return Ok(Value::from(Tuple::default()));
         }
-        // tuples are materialized eagerly, so the length is an allocation size
-        let capacity = ok!(Some(total_len)
-            .filter(|&x| x <= MAX_REPEATED_TUPLE_LEN)
-            .ok_or_else(|| {
-                Error::new(ErrorKind::InvalidOperation, "repeated tuple is too large")
-            }));
-        let mut values = Vec::with_capacity(capacity);
+        let mut values = Vec::with_capacity(total_len);
         for _ in 0..n {
             values.extend(tuple.iter().cloned());
         }
